@@ -625,21 +625,21 @@ func Run(c *corr.Ctx) {
 
 	r.sweeps()
 	g := &gen{r: c.Rng}
-	n := c.N(12000, 200000)
+	n := c.N(8000, 150000)
 	for i := 0; i < n; i++ {
 		d := g.direct()
 		r.direct(d, fmt.Sprintf("direct-%d", i))
 	}
-	r.perturbAll(g, c.N(300, 5000))
-	n = c.N(10000, 200000)
+	r.perturbAll(g, c.N(200, 2500))
+	n = c.N(6000, 150000)
 	for i := 0; i < n; i++ {
 		r.raw(g.raw(), fmt.Sprintf("raw-%d", i))
 	}
-	n = c.N(250, 4000)
+	n = c.N(150, 3000)
 	for i := 0; i < n; i++ {
 		r.serverCase(g.server(), fmt.Sprintf("server-%d", i))
 	}
-	n = c.N(60, 800)
+	n = c.N(40, 800)
 	for i := 0; i < n; i++ {
 		r.clientCase(g.client(), fmt.Sprintf("client-%d", i))
 	}
